@@ -667,7 +667,7 @@ func (g *gen) cascadeBurst() (TxPlan, bool) {
 	store := pick(g.r, []string{StNotes, StNotes, StBadges})
 	ids := absent(U.ByStore()[store], keysOfAny(g.shadow, store))
 	g.r.Shuffle(len(ids), func(i, j int) { ids[i], ids[j] = ids[j], ids[i] })
-	n := 1 + g.r.IntN(3)
+	n := 1 + g.r.IntN(4)
 	for i := 0; i < n && i < len(ids); i++ {
 		if ids[i] == "zn" {
 			continue
@@ -701,7 +701,7 @@ func (g *gen) genTx() TxPlan {
 	if g.r.Float64() < g.cfg.BatchRate {
 		tx.Mode = "batch"
 	}
-	if (g.cfg.Prop == "C04" || g.cfg.Prop == "C06") && g.r.IntN(12) == 0 {
+	if (g.cfg.Prop == "C04" || g.cfg.Prop == "C06") && g.r.IntN(6) == 0 {
 		if btx, ok := g.cascadeBurst(); ok {
 			btx.Mode = tx.Mode
 			saved := g.shadow
